@@ -61,6 +61,14 @@ _ops = ['%s = 5;', '%s++;', '++%s;', '%s--;', '%s += 2;', '%s -= 1;', '%s <<= 1;
 for _n, _d, _l in _lv:
     for _j, _o in enumerate(_ops):
         LVALUE_PROGRAMS['lvalue_%s_%d' % (_n, _j)] = '%s void main() { %s }' % (_d, _o % _l)
+# functions that are reached only through the body of an inline function (the JSR lands in the caller)
+LINK_PROGRAMS = {
+    'link_through_inline': 'unsigned char x; void tick() { x++; } inline void step() { tick(); } void main() { step(); }',
+    'link_through_inline2': 'unsigned char x; void tick() { x++; } inline void step() { tick(); } inline void outer() { step(); x--; } void main() { outer(); outer(); }',
+    'link_through_inline_dead_first': 'char s; void h() { s++; } inline void f() { h(); X = 1; } void helper() { f(); } void main() { f(); }',
+    'link_through_inline_two_callers': 'char s; void h() { s++; } inline void f() { h(); } void g() { f(); } void main() { g(); f(); }',
+    'link_interrupt_through_inline': 'char s; void h() { s++; } inline void f() { h(); } void interrupt irq() { f(); } void main() { s = 0; }',
+}
 # continue / break reached through a switch nested in each kind of loop: the jump target must be defined
 LOOP_EXIT_PROGRAMS = {}
 for _li, (_lname, _loop) in enumerate((('for', 'for (a = 0; a != 3; a++) { %s }'), ('while', 'while (a != 3) { a++; %s }'),
@@ -94,12 +102,25 @@ CLASH_PROGRAMS = {
 
 
 def wf_pass(ctx, srcs, levels):
-    comp = compile_variants(srcs, {O: [O] for O in levels})
+    comp = compile_variants(srcs, {O: [O] for O in levels}, want=('vars', 'funcs', 'tree'))
     recs = {}
+    link_bad = []
     for pid, vs in comp.items():
         for O, r in vs.items():
             if r['status'] != 'ok':
                 continue
+            # the text that is assembled holds the functions in use (and no others): every JSR of an emitted function
+            # must name one of them (or the trampoline of a banked one)
+            if 'inuse' in r:
+                inuse = set(r['inuse'])
+                for f in r['funcs']:
+                    if f['name'] in inuse and not f.get('inline'):
+                        for l in f.get('final') or []:
+                            if l[0] == 'I' and l[1] == 'JSR':
+                                tgt = l[6][4:] if l[6].startswith('Call') and l[6] not in inuse and l[6][4:] in inuse else l[6]
+                                if tgt not in inuse:
+                                    link_bad.append({'why': 'JSR %s in %s, but %s is not among the functions that are emitted' % (l[6], f['name'], l[6]),
+                                                     'id': pid, 'program': srcs[pid], 'level': O, 'function': f['name'], 'lines': norm_lines(f['final'])})
             try:
                 lay = make_layout(r['vars'], [f['name'] for f in r.get('funcs', [])])
             except LayoutError:
@@ -131,7 +152,7 @@ def wf_pass(ctx, srcs, levels):
             if problems:
                 bad.append({'why': '; '.join(problems), 'id': key.split('@')[0], 'program': srcs[key.split('@')[0]],
                             'level': key.split('@')[1], 'function': fn, 'lines': lines})
-    return bad, nfun, stats
+    return bad + link_bad, nfun, stats
 
 
 def matrix_programs():
@@ -189,6 +210,7 @@ def run(ctx):
     srcs.update(CLASH_PROGRAMS)
     srcs.update(LOOP_EXIT_PROGRAMS)
     srcs.update(LABEL_PROGRAMS)
+    srcs.update(LINK_PROGRAMS)
     srcs.update(LVALUE_PROGRAMS)
     srcs.update(COND_PROGRAMS)
     bad, nfun, stats = wf_pass(ctx, srcs, levels)
